@@ -14,13 +14,61 @@ class AnalysisError(Exception):
     """The analysis cannot decide (vanished anchor, unknown idiom). Exit code 2, never a violation."""
 
 
+_FLIP_OP = {ast.Lt: ast.Gt, ast.Gt: ast.Lt, ast.LtE: ast.GtE, ast.GtE: ast.LtE, ast.Eq: ast.Eq, ast.NotEq: ast.NotEq}
+
+
+def _const_like(e):
+    """Literal, ALL-CAPS module constant, or arithmetic over those (`2 ** 32`, `N - 1`, `33 + 128 * 32`)."""
+    if isinstance(e, ast.Constant):
+        return True
+    if isinstance(e, ast.Name):
+        return e.id.isupper() and len(e.id) > 0
+    if isinstance(e, ast.UnaryOp) and isinstance(e.op, (ast.USub, ast.UAdd, ast.Invert)):
+        return _const_like(e.operand)
+    if isinstance(e, ast.BinOp):
+        return _const_like(e.left) and _const_like(e.right)
+    return False
+
+
+class _Normalise(ast.NodeTransformer):
+    """Behaviour-preserving normal form every rule sees (so that the rules need to know one spelling only):
+      * `CONST op x`  ->  `x op' CONST` for a single comparison whose left side is constant-like and right side is not;
+      * `t = E; return t` (adjacent, t a plain local)  ->  `return E`.
+    Positions of the original nodes are kept for reporting."""
+
+    def visit_Compare(self, n):
+        self.generic_visit(n)
+        if len(n.ops) == 1 and type(n.ops[0]) in _FLIP_OP and _const_like(n.left) and not _const_like(n.comparators[0]):
+            return ast.copy_location(ast.Compare(left=n.comparators[0], ops=[_FLIP_OP[type(n.ops[0])]()], comparators=[n.left]), n)
+        return n
+
+    def _block(self, stmts):
+        out = []
+        for s in stmts:
+            if (isinstance(s, ast.Return) and isinstance(s.value, ast.Name) and out and isinstance(out[-1], ast.Assign) and len(out[-1].targets) == 1
+                    and isinstance(out[-1].targets[0], ast.Name) and out[-1].targets[0].id == s.value.id):
+                prev = out.pop()
+                out.append(ast.copy_location(ast.Return(value=prev.value), s))
+            else:
+                out.append(s)
+        return out
+
+    def generic_visit(self, node):
+        super().generic_visit(node)
+        for f in ("body", "orelse", "finalbody"):
+            v = getattr(node, f, None)
+            if isinstance(v, list) and v and isinstance(v[0], ast.stmt):
+                setattr(node, f, self._block(v))
+        return node
+
+
 class Module:
     def __init__(self, name, path, text):
         self.name = name  # e.g. "pecc"
         self.path = path  # e.g. "buidl/pecc.py"
         self.text = text
         self.sha256 = hashlib.sha256(text.encode()).hexdigest()
-        self.tree = ast.parse(text, filename=path)
+        self.tree = ast.fix_missing_locations(_Normalise().visit(ast.parse(text, filename=path)))
         self.functions = {}  # qualname -> FunctionDef
         self.classes = {}  # name -> ClassDef
         self.constants = {}  # name -> ast expr (module-level single-target assigns; last one wins)
